@@ -36,6 +36,9 @@ type vSec struct {
 	hoMu     sync.Mutex
 	hoKeys   []int // keys handed to the workers, in order
 	takes    atomic.Int64
+	stallGet atomic.Bool   // the next Get stalls after it has read the store (slow I/O)
+	stalled  chan struct{} // closed when it is stalling
+	stallCh  chan struct{} // closed to let it go
 }
 
 func (s *vSec) Get(key int) (int, int64, int64, bool, error) {
@@ -43,6 +46,10 @@ func (s *vSec) Get(key int) (int, int64, int64, bool, error) {
 	e, ok := s.m[key]
 	s.mu.Unlock()
 	s.h.tr.Emit(vRec{"ev": "sec", "op": "get", "k": key, "v": e.v, "dl": s.h.uX(e.expire), "ok": vb(ok)})
+	if s.stallGet.CompareAndSwap(true, false) {
+		close(s.stalled)
+		<-s.stallCh
+	}
 	if !ok {
 		return 0, 0, 0, false, nil
 	}
@@ -99,6 +106,8 @@ func (h *vH) uX(x int64) int64 {
 
 // vNewHybrid builds a store with the scripted secondary cache; the handler also counts hand-offs
 // and finished worker items.
+var vHybridPool bool // next hybrid store is built with the entry pool on
+
 func vNewHybrid(tr *vTrace, maxsize int64, loading bool, start int64) (*vH, *vSec) {
 	h := &vH{tr: tr, ids: map[*Entry[int, int]]int{}, procs: map[int64]string{}, parked: map[string]*vPark{},
 		arrive: make(chan struct{}, 4096), shift: 20}
@@ -134,7 +143,7 @@ func vNewHybrid(tr *vTrace, maxsize int64, loading bool, start int64) (*vH, *vSe
 		}
 	}
 	SetVerifHandler(hd)
-	opts := &StoreOptions[int, int]{MaxSize: maxsize, SecondaryCache: sec, Workers: 2, Probability: 1,
+	opts := &StoreOptions[int, int]{MaxSize: maxsize, SecondaryCache: sec, Workers: 2, Probability: 1, EntryPool: vHybridPool,
 		Listener: func(key int, value int, reason RemoveReason) {
 			p, ok := h.procOf(0, nil)
 			if !ok {
@@ -237,10 +246,12 @@ func vHybridRun(tr *vTrace, id string, salt int64) (hang bool) {
 	loading := rnd.Intn(3) == 0
 	failing := rnd.Intn(4) == 0
 	start := int64(1 + rnd.Intn(5000))
-	tr.Emit(vRec{"ev": "reset", "id": id, "maxsize": maxsize, "pool": 0, "door": 0, "loading": vb(loading), "mode": "hybrid",
+	tr.Emit(vRec{"ev": "reset", "id": id, "maxsize": maxsize, "pool": vb(salt%4 == 3), "door": 0, "loading": vb(loading), "mode": "hybrid",
 		"qcap": WriteChanSize, "t": start, "thresh": vThresh(20), "tick": vTickU(20), "failing": vb(failing)})
 	before := vStoreGoroutines()
+	vHybridPool = salt%4 == 3 // one history in four: entry pool on (entry objects are recycled between keys)
 	h, sec := vNewHybrid(tr, maxsize, loading, start)
+	vHybridPool = false
 	defer func() {
 		h.quiet.Store(true)
 		vDeadStores.Store(h.store, true)
@@ -620,6 +631,152 @@ func vHybridUpdateBeforeCopy(tr *vTrace, id string, salt int64) (hang bool) {
 	return false
 }
 
+// vHybridStalledGet: a hybrid Get whose read of the secondary store is slow (it stalls after the store has
+// answered). variant 0: the key lives in the secondary tier only and is deleted meanwhile - the stalled Get must
+// not bring the deleted value back (C14). variant 1: the key lives nowhere (the store answers "not found"); it
+// is then set, evicted and written to the secondary tier - a Get that starts after that must find it (C15).
+// On the code as it is the shard stays write-locked during the read, so the other calls simply wait; they run
+// on a helper goroutine and the stalled Get is released after 150 ms at the latest. The stalled Get is not
+// logged as a call of the sequential client.
+func vHybridStalledGet(tr *vTrace, id string, salt int64) (hang bool) {
+	rnd := vRand(salt)
+	start := int64(1 + rnd.Intn(5000))
+	variant := int(salt % 2)
+	tr.Emit(vRec{"ev": "reset", "id": id, "maxsize": 2, "pool": 0, "door": 0, "loading": 0, "mode": "hybrid",
+		"qcap": WriteChanSize, "t": start, "thresh": vThresh(20), "tick": vTickU(20), "failing": 0})
+	h, sec := vNewHybrid(tr, 2, false, start)
+	defer func() {
+		h.quiet.Store(true)
+		vDeadStores.Store(h.store, true)
+		vTimed(2*time.Second, h.store.Close)
+		SetVerifHandler(nil)
+		vRemoveClock()
+	}()
+	c := h.client("c1")
+	un := c.register()
+	defer un()
+	s := h.store
+	k := 0
+	if variant == 0 {
+		for x := 1; x <= 5; x++ {
+			c.Set(x, 1, 0)
+			if !h.settleHybrid() {
+				tr.Emit(vRec{"ev": "hang", "p": "c1", "op": "settle"})
+				return true
+			}
+		}
+		for x := 1; x <= 5 && k == 0; x++ {
+			sec.mu.Lock()
+			_, insec := sec.m[x]
+			sec.mu.Unlock()
+			_, idx := s.index(x)
+			sh := s.shards[idx]
+			tk := sh.mu.RLock()
+			_, inmem := sh.hashmap[x]
+			sh.mu.RUnlock(tk)
+			if insec && !inmem {
+				k = x
+			}
+		}
+		if k == 0 {
+			tr.Emit(vRec{"ev": "end", "stuck": 1, "skipped": 0})
+			return false
+		}
+	} else {
+		k = 9
+	}
+	sec.stalled = make(chan struct{})
+	sec.stallCh = make(chan struct{})
+	sec.stallGet.Store(true)
+	released := false
+	release := func() {
+		if !released {
+			released = true
+			sec.stallGet.Store(false)
+			close(sec.stallCh)
+		}
+	}
+	defer release()
+	adone := make(chan struct{})
+	go func() {
+		a := h.client("c2")
+		una := a.register()
+		s.GetWithSecodary(k)
+		una()
+		close(adone)
+	}()
+	select {
+	case <-sec.stalled:
+	case <-time.After(3 * time.Second):
+		release()
+		<-adone
+		tr.Emit(vRec{"ev": "end", "stuck": 1, "skipped": 0})
+		return false
+	}
+	hget := func(x int) {
+		tr.Emit(vRec{"ev": "call", "p": c.name, "op": "hget", "k": x, "v": 0, "cost": 0, "ttl": 0, "t": h.nowU()})
+		v, ok, err := s.GetWithSecodary(x)
+		code := 0
+		if err != nil {
+			code = 1
+		}
+		tr.Emit(vRec{"ev": "ret", "p": c.name, "op": "hget", "ok": vb(ok), "v": v, "n": code, "n2": 0})
+	}
+	bdone := make(chan bool, 1)
+	go func() {
+		b := h.client("c1")
+		unb := b.register()
+		defer unb()
+		if variant == 0 {
+			tr.Emit(vRec{"ev": "call", "p": c.name, "op": "hdel", "k": k, "v": 0, "cost": 0, "ttl": 0, "t": h.nowU()})
+			err := s.DeleteWithSecondary(k)
+			tr.Emit(vRec{"ev": "ret", "p": c.name, "op": "hdel", "ok": vb(err == nil), "v": 0, "n": 0, "n2": 0})
+		} else {
+			b.Set(k, 1, 0)
+			for x := 20; x < 26; x++ {
+				b.Set(x, 1, 0)
+			}
+			if !h.settleHybrid() {
+				bdone <- false
+				return
+			}
+			// the key is in the secondary tier now (or still in memory): a Get that starts here finds it
+			tr.Emit(vRec{"ev": "final"})
+			hget(k)
+		}
+		bdone <- true
+	}()
+	var ok bool
+	select {
+	case ok = <-bdone:
+	case <-time.After(150 * time.Millisecond):
+		release()
+		select {
+		case ok = <-bdone:
+		case <-time.After(8 * time.Second):
+		}
+	}
+	release()
+	select {
+	case <-adone:
+	case <-time.After(5 * time.Second):
+		ok = false
+	}
+	if !ok {
+		tr.Emit(vRec{"ev": "hang", "p": "c1", "op": "hget"})
+		return true
+	}
+	if !h.settleHybrid() {
+		tr.Emit(vRec{"ev": "hang", "p": "c1", "op": "settle"})
+		return true
+	}
+	h.emitSettled(sec)
+	tr.Emit(vRec{"ev": "final"})
+	hget(k)
+	tr.Emit(vRec{"ev": "end", "stuck": 0, "skipped": 0})
+	return false
+}
+
 func TestVerif_Hybrid(t *testing.T) {
 	out := vOutDir(t)
 	vStoreMu.Lock()
@@ -641,6 +798,11 @@ func TestVerif_Hybrid(t *testing.T) {
 	}
 	for i := 0; i < 2+n/10 && hangs == 0; i++ {
 		if vHybridSlotReplaced(tr, fmt.Sprintf("hyslot%d", i), int64(i)) {
+			hangs++
+		}
+	}
+	for i := 0; i < 2+n/10 && hangs == 0; i++ {
+		if vHybridStalledGet(tr, fmt.Sprintf("hystall%d", i), int64(i)) {
 			hangs++
 		}
 	}
